@@ -14,6 +14,8 @@ def key_fn(case, obs, verdict):
         if "net code" in verdict or "saw no error" in verdict:
             what = "net-code"
         return "shoot:%s-gun:%s:%s" % ({"h": "http", "c": "connect"}.get(f[1], f[1]), f[2], what)
+    if f[0] == "phout":
+        return "phout-aggregator:recycled-sample-codes"
     if f[0] in ("hscen", "gscen", "gshoot"):
         n_obs = obs.split(" ")[0]
         n_want = verdict.replace("BAD:expected ", "").split(" ")[0]
